@@ -44,6 +44,7 @@ def generate(seed, index, tier):
     cfg['max_models'] = rng.choice([1, 2, 3])
     cfg['index_conditions'] = True
     cfg['q_wrap'] = rng.random() < 0.5
+    cfg['q_conn1'] = rng.random() < 0.5
     cfg['relations'] = rng.random() < 0.7
     cfg['m2m'] = cfg['relations'] and rng.random() < 0.6
     if rng.random() < 0.25:
